@@ -692,6 +692,14 @@ def analyse(tier, seed):
             samples.add("".join(chr(rng.randrange(1, 256)) for _ in range(rng.randint(0, n))))
         samples |= {"", "/", "//", "/?", "/a/?b", "/{a}", "/{a: **, capture: 2}", "/{a:   /x/,   b: /y/}", "/{a: /x/b: /y/}", "/{a: b c: d}"}
         samples = sorted(samples)
+        # spacing variants of every sample, parsed AFTER the originals by the same parser instance:
+        # blanks inserted after / removed behind every ':' and ',' (also inside regex text, where they are significant)
+        variants = []
+        for smp in samples:
+            for v in (re.sub(r"([:,])", r"\1 ", smp), re.sub(r"([:,]) +", r"\1", smp), re.sub(r"([:,])", r"\1  ", smp)):
+                if v != smp and v not in variants:
+                    variants.append(v)
+        samples = samples + [v for v in variants if v not in set(samples)]
 
         lexer = PyLexer(dump)
         tm = dict(tmodel)
